@@ -207,8 +207,8 @@ pub fn check_c05_like(case: &CliCase, cx: &mut CaseCtx, check_rejects_content: b
 
 pub fn build_cli_case(ch: &mut Chooser, cx: &mut CaseCtx, fail_chance: u32, with_goal: bool) -> CliCase {
     let thorough = cx.env.tier == Tier::Thorough;
-    // names needing C quoting only where rejects are not read back (with_goal = C05)
-    let nasty_names = with_goal && ch.chance(1, 4);
+    // names needing C quoting (rejects carry them quoted since the writer fix)
+    let nasty_names = ch.chance(1, 4);
     let o = WsGenOpts { fail_chance, nasty_names, allow_misordered: true, second_failure: true, allow_hard_error: true, max_patches: if thorough { 12 } else { 6 }, ..Default::default() };
     let ws = gen_ws(ch, cx, &o);
     let mut opts = gen_opts(ch, true);
